@@ -1001,3 +1001,31 @@ DIRECTED = [
      "new": dict(_leaf("SubmodelElementCollection", "root"), kids={"value": [dict(P("x"), q=[{"t": "qa", "vt": "Int", "v": 5, "kind": "VALUE_QUALIFIER", "sem": "urn:s:1", "vid": None}])]}),
      "us": False, "holder": None, "tags": ["qualifier-value@nested"]},
 ]
+
+
+def _retypes():
+    """Directed: a surviving idShort changes its class, for EVERY ordered pair of element classes (sub- and superclasses of
+    each other included), directly below the root and one level deeper."""
+    rng = random.Random("C12:retype")
+    out = []
+    pool = LEAVES + CONTAINERS
+    for c1 in pool:
+        for c2 in pool:
+            if c1 == c2:
+                continue
+            for nested in (False, True):
+                a, b = gen_node(rng, c1, 1, "x"), gen_node(rng, c2, 1, "x")
+                def wrap(k):
+                    inner = dict(_leaf("SubmodelElementCollection", "mid"), kids={"value": [k]}) if nested else k
+                    return dict(_leaf("SubmodelElementCollection", "root"), kids={"value": [inner]})
+                case = {"live": wrap(a), "new": wrap(b), "us": False, "holder": None,
+                        "tags": ["child-retyped" + ("@nested" if nested else "")]}
+                try:
+                    build_case(copy.deepcopy(case))
+                except Exception:
+                    continue
+                out.append(case)
+    return out
+
+
+DIRECTED += _retypes()
